@@ -244,3 +244,20 @@ def callee_consts(facts, fn_pat, const_suffix):
             if c is not None and "str" in c:
                 return c["str"]
     return None
+
+
+def tuple_field_src(f, op):
+    """`&(*_233.0)` where _233 = tuple{move _234}: return operand _234's source"""
+    p = op_place(op)
+    if p is None:
+        return op
+    d = single_def(f, p["l"])
+    if d and d[1] == "assign" and d[2]["rv"]["k"] == "ref":
+        base = d[2]["rv"]["place"]
+        dd = single_def(f, base["l"])
+        fs = [e["f"] for e in base["p"] if isinstance(e, dict) and "f" in e]
+        if dd and dd[1] == "assign" and dd[2]["rv"]["k"] == "agg" and dd[2]["rv"]["agg"] == "tuple" and fs:
+            return dd[2]["rv"]["ops"][fs[0]]
+    return op
+
+
